@@ -471,7 +471,14 @@ class Verifier:
         ctx = I.ctx
         if not run.quick_feasible():
             raise E.PathEnd()
-        extra = {"result": result, "ghost": None}
+        extra = {}
+        root = getattr(I, "root_frame", None)
+        if root is not None:
+            # locals of the function (as they are at the exit) are visible to postconditions, below parameters/ghosts
+            for k_, v_ in root.locals.items():
+                if k_ not in sframe.locals and k_ not in self.spec_funcs:
+                    extra[k_] = v_
+        extra.update({"result": result, "ghost": None})
         for g, v in run.ghost.items():
             extra[g] = v
         extra["ncalls"] = VInt(len(run.calls))
